@@ -438,10 +438,27 @@ class Mir:
         L = self.lines
         n = len(L)
         i = 0
+        self.allocs = {}    # alloc id -> (static name, first line, last line)
+        last_mod = ""
         while i < n:
             ln = L[i]
+            if ln.startswith("alloc"):
+                ma = re.match(r"alloc(\d+) \((?:static: ([^,]+), )?size: (\d+)", ln)
+                if ma:
+                    j = i + 1
+                    while j < n and L[j] != "}":
+                        j += 1
+                    nm = ma.group(2)
+                    if nm and "::" not in nm and last_mod:
+                        nm = last_mod + "::" + nm
+                    if nm:
+                        self.allocs.setdefault(int(ma.group(1)), (nm, i, j))
+                    i = j + 1
+                    continue
             if ln and not ln[0].isspace() and not ln.startswith("//"):
                 m = _HDR.match(ln)
+                if m and m.group(1) == "fn":
+                    last_mod = m.group(2).split("::")[0]
                 if m or ln.startswith("promoted["):
                     # single-line const?  `const X: T = const 1_u32;`
                     start = i
